@@ -301,17 +301,19 @@ theorem C02_node_span_preorder (t0 t : Val) (hwf : treeOk2 t = true) (hmono : Pr
   exact ⟨hg, fun b hb => goodSpan_binding hg hb⟩
 
 /-- **C02 (node spans, on the real pipeline).** The same for what `flatten_ast` returns, for a tree whose
-on-the-fly form satisfies `wfStages6` and whose tweaked form `stage6` satisfies `treeOk2` and
+on-the-fly form satisfies `wfStages6` and `wfTweak` and whose tweaked form `tweak [] …` (the one-shot
+specification) satisfies `treeOk2` and
 `namesOkTree`, `lastDescMono`. -/
 theorem C02_node_span_pipeline (cfg : Cfg) (s : HashState) (t : Val) (ty : List Char) (e : Bool) (r : List Char)
     (ln : Option Nat) (fs : List (List Char × Val)) (ht : prep cfg t = .node ty e r ln fs)
-    (hwf : wfStages6 (prep cfg t) = true) (hok : treeOk2 (stage6 (prep cfg t)) = true)
-    (hnames : namesOkTree (stage6 (prep cfg t)) = true)
-    (hmono : lastDescMono [] [] (stage6 (prep cfg t)) = true) :
-    ∀ m ∈ nodeMatches (flattenAst cfg s t).1, (posTypes (stage6 (prep cfg t))).contains m.1 = true →
+    (hwf : wfStages6 (prep cfg t) = true) (hwt : wfTweak (prep cfg t) = true)
+    (hok : treeOk2 (tweak [] (prep cfg t)) = true)
+    (hnames : namesOkTree (tweak [] (prep cfg t)) = true)
+    (hmono : lastDescMono [] [] (tweak [] (prep cfg t)) = true) :
+    ∀ m ∈ nodeMatches (flattenAst cfg s t).1, (posTypes (tweak [] (prep cfg t))).contains m.1 = true →
       GoodSpan m ∧ ∀ b, nodeBinding? m = some b → b.2.start ≤ b.2.stop := by
-  rw [Paroxy.Props.C15.C15_flatten_tweaked cfg s t ty e r ln fs ht hwf]
-  exact C02_node_span (prep cfg t) (stage6 (prep cfg t)) hok hnames hmono
+  rw [Paroxy.Props.C15.C15_flatten_tweaked cfg s t ty e r ln fs ht hwf hwt]
+  exact C02_node_span (prep cfg t) (tweak [] (prep cfg t)) hok hnames hmono
 
 /-- Non-vacuity: a two-line module `if x:` / `    pass` (already tweaked). -/
 def sampleIf : Val :=
